@@ -37,11 +37,13 @@ package gossip
 //@   ensures[inv] csInv(s) && wInv(s)
 //@   ensures[known-kept] forall id string :: old(id in s.nodes) ==> id in s.nodes && s.nodes[id] == old(s.nodes[id])
 //@   ensures[only-named] forall id string :: id in s.nodes && !old(id in s.nodes) ==> id == entry.ID
-//@   ensures[frame-local] entry.ID == s.localID ==> s.nodes[s.localID].Version == old(s.nodes[s.localID].Version) && s.nodes[s.localID].Left == old(s.nodes[s.localID].Left)
+//@   ensures[own-state-framed] s.nodes[s.localID].NodeMetadata == old(s.nodes[s.localID].NodeMetadata)
 //@       && (forall k string :: (k in s.nodes[s.localID].Entries) == old(k in s.nodes[s.localID].Entries) && s.nodes[s.localID].Entries[k] == old(s.nodes[s.localID].Entries[k]))
 //@   ensures[monotone] old(entry.ID in s.nodes) ==> s.nodes[entry.ID].Version >= old(s.nodes[entry.ID].Version)
 //@   ensures[left-sticky] old(entry.ID in s.nodes) && old(s.nodes[entry.ID].Left) ==> s.nodes[entry.ID].Left
 //@   loop 1 frame state.NodeMetadata, entries(state.Entries)
+//@   loop 1 invariant[own-state-framed] s.nodes[s.localID].NodeMetadata == old(s.nodes[s.localID].NodeMetadata)
+//@       && (forall k string :: (k in s.nodes[s.localID].Entries) == old(k in s.nodes[s.localID].Entries) && s.nodes[s.localID].Entries[k] == old(s.nodes[s.localID].Entries[k]))
 //@   loop 1 invariant[range] rangeindex < len(entry.Entries)
 //@   loop 1 invariant[inv] csInv(s) && wInv(s)
 //@   loop 1 invariant[state] state != nil && entry.ID != s.localID && entry.ID in s.nodes && s.nodes[entry.ID] == state
@@ -50,6 +52,8 @@ package gossip
 //@   loop 1 invariant[monotone] old(entry.ID in s.nodes) ==> state.Version >= old(s.nodes[entry.ID].Version)
 //@   loop 1 invariant[left-sticky] old(entry.ID in s.nodes) && old(s.nodes[entry.ID].Left) ==> state.Left
 //@   loop 2 frame entries(state.Entries)
+//@   loop 2 invariant[own-state-framed] s.nodes[s.localID].NodeMetadata == old(s.nodes[s.localID].NodeMetadata)
+//@       && (forall k string :: (k in s.nodes[s.localID].Entries) == old(k in s.nodes[s.localID].Entries) && s.nodes[s.localID].Entries[k] == old(s.nodes[s.localID].Entries[k]))
 //@   loop 2 invariant[inv] csInv(s) && wInv(s)
 //@   loop 2 invariant[state] state != nil && entry.ID != s.localID && entry.ID in s.nodes && s.nodes[entry.ID] == state
 //@   loop 2 invariant[known-kept] forall id string :: old(id in s.nodes) ==> id in s.nodes && s.nodes[id] == old(s.nodes[id])
@@ -63,3 +67,65 @@ package gossip
 //@   loop 2 ensures[compact-removed] forall k string :: oldloop(k in state.Entries) && oldloop(state.Entries[k].Version) <= compactVersion ==> !(k in state.Entries)
 //@   loop 2 ensures[compact-kept] forall k string :: oldloop(k in state.Entries) && oldloop(state.Entries[k].Version) > compactVersion ==> k in state.Entries && state.Entries[k] == oldloop(state.Entries[k])
 //@   loop 2 ensures[compact-no-new] forall k string :: k in state.Entries ==> oldloop(k in state.Entries)
+
+//@ contract (*clusterState).ApplyDelta
+//@   serves C02 C11 C13 C14 C20
+//@   requires[class] forall i int, j int :: 0 <= i && i < len(delta) && 0 <= j && j < len(delta[i].Entries) ==> delta[i].Entries[j].Internal == isInternalKey(delta[i].Entries[j].Key)
+//@   ensures[known-kept] forall id string :: old(id in s.nodes) ==> id in s.nodes && s.nodes[id] == old(s.nodes[id])
+//@   ensures[monotone] forall id string :: old(id in s.nodes) ==> s.nodes[id].Version >= old(s.nodes[id].Version)
+//@   ensures[left-sticky] forall id string :: old(id in s.nodes) && old(s.nodes[id].Left) ==> s.nodes[id].Left
+//@   ensures[own-state-framed] s.nodes[s.localID].NodeMetadata == old(s.nodes[s.localID].NodeMetadata)
+//@       && (forall k string :: (k in s.nodes[s.localID].Entries) == old(k in s.nodes[s.localID].Entries) && s.nodes[s.localID].Entries[k] == old(s.nodes[s.localID].Entries[k]))
+//@   ensures[only-named] forall id string :: id in s.nodes && !old(id in s.nodes) ==> (exists i int :: 0 <= i && i < len(delta) && delta[i].ID == id)
+//@   loop 1 invariant[range] rangeindex < len(delta)
+//@   loop 1 invariant[inv] csInv(s) && wInv(s)
+//@   loop 1 invariant[locked] held(clusterState.mu)
+//@   loop 1 invariant[known-kept] forall id string :: old(id in s.nodes) ==> id in s.nodes && s.nodes[id] == old(s.nodes[id])
+//@   loop 1 invariant[monotone] forall id string :: old(id in s.nodes) ==> s.nodes[id].Version >= old(s.nodes[id].Version)
+//@   loop 1 invariant[left-sticky] forall id string :: old(id in s.nodes) && old(s.nodes[id].Left) ==> s.nodes[id].Left
+//@   loop 1 invariant[own-state-framed] s.nodes[s.localID].NodeMetadata == old(s.nodes[s.localID].NodeMetadata)
+//@       && (forall k string :: (k in s.nodes[s.localID].Entries) == old(k in s.nodes[s.localID].Entries) && s.nodes[s.localID].Entries[k] == old(s.nodes[s.localID].Entries[k]))
+//@   loop 1 invariant[only-named] forall id string :: id in s.nodes && !old(id in s.nodes) ==> (exists i int :: 0 <= i && i <= rangeindex && delta[i].ID == id)
+
+// ---- liveness and expiry (C11, C14) -------------------------------------------
+
+// The suspicion level the detector reports for a node during one liveness sweep.
+//@ uninterp suspAt(id string) float64
+
+//@ contract (*clusterState).UpdateLiveness
+//@   serves C11 C14 C20
+//@   ensures[nodes-kept] forall id string :: (id in s.nodes) == old(id in s.nodes) && s.nodes[id] == old(s.nodes[id])
+//@   ensures[identity] forall id string :: id in s.nodes ==> s.nodes[id].ID == old(s.nodes[id].ID) && s.nodes[id].Addr == old(s.nodes[id].Addr) && s.nodes[id].Version == old(s.nodes[id].Version) && s.nodes[id].Left == old(s.nodes[id].Left)
+//@   ensures[local-and-left-untouched] forall id string :: id in s.nodes && (id == s.localID || old(s.nodes[id].Left)) ==> s.nodes[id].NodeMetadata == old(s.nodes[id].NodeMetadata)
+//@   ensures[liveness] forall id string :: id in s.nodes && id != s.localID && !s.nodes[id].Left ==> s.nodes[id].Unreachable == (suspAt(id) > suspicionThreshold)
+//@   ensures[expiry-on-edge] forall id string :: id in s.nodes && s.nodes[id].Unreachable == old(s.nodes[id].Unreachable) ==> s.nodes[id].Expiry == old(s.nodes[id].Expiry)
+//@   loop 1 invariant[inv] csInv(s) && wInv(s)
+//@   loop 1 invariant[identity] forall id string :: id in s.nodes ==> s.nodes[id].ID == old(s.nodes[id].ID) && s.nodes[id].Addr == old(s.nodes[id].Addr) && s.nodes[id].Version == old(s.nodes[id].Version) && s.nodes[id].Left == old(s.nodes[id].Left)
+//@   loop 1 invariant[pending] forall id string :: id in s.nodes && !(id in seen) ==> s.nodes[id].NodeMetadata == old(s.nodes[id].NodeMetadata)
+//@   loop 1 invariant[local-and-left-untouched] forall id string :: id in s.nodes && (id == s.localID || old(s.nodes[id].Left)) ==> s.nodes[id].NodeMetadata == old(s.nodes[id].NodeMetadata)
+//@   loop 1 invariant[liveness] forall id string :: id in seen && id in s.nodes && id != s.localID && !s.nodes[id].Left ==> s.nodes[id].Unreachable == (suspAt(id) > suspicionThreshold)
+//@   loop 1 invariant[expiry-on-edge] forall id string :: id in s.nodes && s.nodes[id].Unreachable == old(s.nodes[id].Unreachable) ==> s.nodes[id].Expiry == old(s.nodes[id].Expiry)
+
+//@ pure expired(s *clusterState, id string, t time.Time) bool = !s.nodes[id].Expiry.IsZero() && t.After(s.nodes[id].Expiry)
+
+//@ contract (*clusterState).RemoveExpiredAt
+//@   serves C11 C14 C20
+//@   modifies entries(s.nodes)
+//@   ensures[after-expiry] forall id string :: old(id in s.nodes) && old(expired(s, id, t)) ==> !(id in s.nodes)
+//@   ensures[not-before-expiry] forall id string :: old(id in s.nodes) && !old(expired(s, id, t)) ==> id in s.nodes && s.nodes[id] == old(s.nodes[id])
+//@   ensures[no-new] forall id string :: id in s.nodes ==> old(id in s.nodes)
+//@   loop 1 frame nothing
+//@   loop 1 invariant[fresh] cap(nodeIDs) == 0 || fresh(nodeIDs)
+//@   loop 1 invariant[collected] forall j int :: 0 <= j && j < len(nodeIDs) ==> nodeIDs[j] in s.nodes && expired(s, nodeIDs[j], t)
+//@   loop 1 invariant[complete] forall id string :: id in seen && id in s.nodes && expired(s, id, t) ==> (exists j int :: 0 <= j && j < len(nodeIDs) && nodeIDs[j] == id)
+//@   loop 1 invariant[inv] csInv(s) && wInv(s)
+//@   loop 2 frame entries(s.nodes)
+//@   loop 2 invariant[range] rangeindex < len(nodeIDs)
+//@   loop 2 invariant[inv] csInv(s) && wInv(s)
+//@   loop 2 invariant[removed] forall j int :: 0 <= j && j <= rangeindex ==> !(nodeIDs[j] in s.nodes)
+//@   loop 2 invariant[kept] forall id string :: old(id in s.nodes) && !(exists j int :: 0 <= j && j <= rangeindex && nodeIDs[j] == id) ==> id in s.nodes && s.nodes[id] == old(s.nodes[id])
+//@   loop 2 invariant[no-new] forall id string :: id in s.nodes ==> old(id in s.nodes)
+//@   loop 2 invariant[collected] forall j int, id string :: 0 <= j && j < len(nodeIDs) && id == nodeIDs[j] ==> old(id in s.nodes) && old(expired(s, id, t))
+//@   loop 2 invariant[complete] forall id string :: old(id in s.nodes) && old(expired(s, id, t)) ==> (exists j int :: 0 <= j && j < len(nodeIDs) && nodeIDs[j] == id)
+
+//@ nonnil Metrics.Entries
